@@ -603,6 +603,11 @@ pub fn all_shapes(thorough: bool) -> Vec<Box<dyn Shape>> {
         // circuit refused these honest proofs, see known_findings.jsonl `fixed:` C01)
         v.push(cfgs::bb::uni(TAir::AddRl { rows: 8 }));
         v.push(cfgs::kb5::uni(TAir::AddRl { rows: 16 }));
+        // batches that mix an AIR with a (local LogUp) lookup and lookup-free AIRs: the proof's
+        // `lookup_terminals` / permutation openings are present for some instances only
+        v.push(cfgs::bb::batch(vec![TAir::Lk { rows: 8 }, add]));
+        v.push(cfgs::kb::batch(vec![add, TAir::Lk { rows: 16 }, mulp]));
+        v.push(cfgs::kbzkh::batch(vec![TAir::Lk { rows: 8 }, sub, TAir::Lk { rows: 16 }]));
         // per-instance public values together with a global preprocessed commitment
         v.push(cfgs::bb::batch(vec![mulp, pv]));
         v.push(cfgs::kbzk::batch(vec![pv, mulp, add]));
@@ -668,6 +673,7 @@ pub fn probe_shape(spec: &str) -> Option<Box<dyn Shape>> {
                         "addrl" => TAir::AddRl { rows },
                         "sub" => TAir::Sub { rows },
                         "subrl" => TAir::SubRl { rows },
+                        "lk" => TAir::Lk { rows },
                         "pv" => TAir::Pv { rows },
                         "per" => TAir::Per { rows },
                         "mul" => TAir::Mul { degree: 2, rows, reps: 3, prep: true },
